@@ -650,3 +650,47 @@ package rtsp
 //@   modifies
 //@ func MatchRTSP() (m listener.Matcher)
 //@   modifies
+
+// ---- C01 / C03: the multicast proxy serves all its members and stops only when the last one leaves -------------------------
+//@ extern func media.Get(path string) (st *media.Stream)
+//@   modifies
+//@ extern func net.ListenUDP(network string, laddr *net.UDPAddr) (c *net.UDPConn, err error)
+//@   modifies ghostAll("misc")
+//@   freshornil c
+//@   ensures err == nil ==> c != nil
+//@ extern func (c *net.UDPConn) SetWriteBuffer(bytes int) (err error)
+//@   modifies ghostAll("misc")
+//@ extern func net.ResolveUDPAddr(network string, address string) (a *net.UDPAddr, err error)
+//@   modifies
+//@ extern func (l *xlog.Logger) Error(msg string, fields ...xlog.Field) ()
+//@   modifies ghostInt(l, "problems")
+//@ extern func (l *xlog.Logger) Info(msg string, fields ...xlog.Field) ()
+//@   modifies
+// every viewer that joins is recorded as a member (the proxy is started by the first one): a viewer leaving later takes
+// only itself off the list, and the proxy stops when the list is empty
+//@ func (proxy *multicastProxy) AddMember(m io.Closer) ()
+//@   requires proxy != nil && proxy.logger != nil && !held(&proxy.multicastLock) && len(proxy.members) < 1<<30
+//@   modifies held(&proxy.multicastLock), proxy.members, proxy.members[:cap(proxy.members)], proxy.udpConn, proxy.destAddr[:], proxy.cid, proxy.closed, ghostAll("misc"), ghostAll("problems")
+//@   local rangeindex int
+//@   loop 0: modifies proxy.destAddr[:]
+//@   loop 0: invariant -1 <= rangeindex && rangeindex <= 4 && proxy == old(proxy) && sameHdr(proxy.members, old(proxy.members)) && held(&proxy.multicastLock)
+//@   ensures !held(&proxy.multicastLock)
+//@   ensures old(len(proxy.members)) > 0 ==> len(proxy.members) == old(len(proxy.members)) + 1 && proxy.members[old(len(proxy.members))] == m
+//@   ensures old(len(proxy.members)) == 0 ==> len(proxy.members) == 0 || (len(proxy.members) == 1 && proxy.members[0] == m && !proxy.closed)
+//@   ensures forall(i, 0, old(len(proxy.members)), proxy.members[i] == old(proxy.members[i]))
+//@ func (proxy *multicastProxy) close() ()
+//@   trusted
+//@   requires proxy != nil && held(&proxy.multicastLock)
+//@   modifies proxy.closed, proxy.udpConn, proxy.members, proxy.destAddr[:], ghostAll("misc")
+//@   ensures proxy.closed && len(proxy.members) == 0
+// a viewer that leaves takes only itself off the list; the proxy is stopped only when the list is empty afterwards
+//@ func (proxy *multicastProxy) ReleaseMember(m io.Closer) ()
+//@   requires proxy != nil && !held(&proxy.multicastLock) && len(proxy.members) < 1<<30
+//@   modifies held(&proxy.multicastLock), proxy.members, proxy.members[:cap(proxy.members)], proxy.closed, proxy.udpConn, proxy.destAddr[:], ghostAll("misc")
+//@   local rangeindex int
+//@   loop 0: modifies
+//@   loop 0: invariant -1 <= rangeindex && rangeindex <= len(proxy.members) && sameHdr(proxy.members, old(proxy.members)) && held(&proxy.multicastLock) && proxy == old(proxy)
+//@   assert[call:close] len(proxy.members) == 0
+//@   ensures !held(&proxy.multicastLock)
+//@   ensures len(proxy.members) <= old(len(proxy.members)) && len(proxy.members) >= old(len(proxy.members)) - 1
+//@   ensures old(len(proxy.members)) >= 2 ==> proxy.closed == old(proxy.closed) && len(proxy.members) >= 1
